@@ -122,6 +122,21 @@ void execute_assignment(StatementExecutor *executor, Interpreter &interpreter,
                           << meta->to_string() << std::endl;
             }
 
+            // 指し先が const オブジェクト（const配列の要素、const構造体の
+            // メンバーなど）の場合は、ポインタ経由でも変更不可
+            const Variable *pointee = nullptr;
+            if (meta->target_type == PointerTargetType::VARIABLE) {
+                pointee = meta->var_ptr;
+            } else if (meta->target_type == PointerTargetType::ARRAY_ELEMENT) {
+                pointee = meta->array_var;
+            } else if (meta->target_type == PointerTargetType::STRUCT_MEMBER) {
+                pointee = meta->member_var;
+            }
+            if (pointee && pointee->is_const && pointee->is_assigned) {
+                throw std::runtime_error(
+                    "Cannot modify const variable through pointer");
+            }
+
             // 型に応じてメタデータを通じて値を書き込み
             if (typed_value.is_floating()) {
                 double float_val = typed_value.as_double();
@@ -288,6 +303,12 @@ void execute_assignment(StatementExecutor *executor, Interpreter &interpreter,
                 } else {
                     // 通常のVariableポインタへの代入（変数のアドレス等）
                     Variable *var = reinterpret_cast<Variable *>(ptr_value);
+
+                    // 指し先が const 変数の場合は、ポインタ経由でも変更不可
+                    if (var->is_const && var->is_assigned) {
+                        throw std::runtime_error(
+                            "Cannot modify const variable through pointer");
+                    }
 
                     // 型に応じて値を設定
                     if (typed_value.is_floating()) {
